@@ -626,30 +626,26 @@ theorem betweenBlock_append (t1 t2 n : Nat) (b1 b2 : List TV) (sk : Nat) :
       · rfl
       · exact ih (sk + 1)
 
-theorem betweenChain_noOverrun (t1 t2 n : Nat) (block0 : List TV) (blocks : List (List TV)) (fuel sk : Nat)
-    (hf : blocks.length ≤ fuel) :
-    betweenChain t1 t2 n block0 fuel blocks sk =
+/-- The chain loop consumes the key's blocks one after the other: it is the block loop over their
+concatenation, and it ends with "key not found" when no version of the chain decides. -/
+theorem betweenChain_flatten (t1 t2 n : Nat) (blocks : List (List TV)) (sk : Nat) :
+    betweenChain t1 t2 n blocks sk =
       match betweenBlock t1 t2 n blocks.flatten sk with
       | .inl r => r
-      | .inr sk' => betweenChain t1 t2 n block0 (fuel - blocks.length) [] sk' := by
-  induction blocks generalizing fuel sk with
-  | nil => simp [betweenBlock]
+      | .inr _ => .error .keyNotFound := by
+  induction blocks generalizing sk with
+  | nil => simp [betweenChain, betweenBlock]
   | cons b bs ih =>
-    cases fuel with
-    | zero => simp at hf
-    | succ f =>
-      simp only [List.length_cons] at hf
-      simp only [betweenChain, List.flatten_cons]
-      rw [betweenBlock_append]
-      cases hb : betweenBlock t1 t2 n b sk with
-      | inl r => rfl
-      | inr sk' =>
-        simp only
-        rw [ih f sk' (by omega)]
-        simp
+    simp only [betweenChain, List.flatten_cons]
+    rw [betweenBlock_append]
+    cases hb : betweenBlock t1 t2 n b sk with
+    | inl r => rfl
+    | inr sk' =>
+      simp only
+      exact ih sk'
 
-/-- The history-log part agrees with the specification as long as it stays inside the key's own chain. -/
-theorem betweenBlock_spec (t1 t2 n : Nat) (ht2 : t2 ≠ 0) (h64 : n < 2 ^ 64) (ys : List TV) (sk : Nat)
+/-- The history-log part agrees with the specification. -/
+theorem betweenBlock_spec (t1 t2 n : Nat) (ht2 : t2 ≠ 0) (ys : List TV) (sk : Nat)
     (hsk : sk + ys.length = n) :
     (∀ r, betweenBlock t1 t2 n ys sk = .inl r → betweenAux t1 t2 ys = r) ∧
     (∀ sk', betweenBlock t1 t2 n ys sk = .inr sk' →
@@ -677,10 +673,7 @@ theorem betweenBlock_spec (t1 t2 n : Nat) (ht2 : t2 ≠ 0) (h64 : n < 2 ^ 64) (y
           simp only [h1, if_false, h2, or_true, if_true]
           simp at h
           rw [← h]
-          have : (n + 2 ^ 64 - sk) % 2 ^ 64 = rest.length + 1 := by
-            have : n + 2 ^ 64 - sk = (n - sk) + 2 ^ 64 := by omega
-            rw [this, Nat.add_mod_right, Nat.mod_eq_of_lt (by omega)]
-            omega
+          have : n - sk = rest.length + 1 := by omega
           rw [this]
         · rename_i h2
           have : ¬ (t2 = 0 ∨ tv.ts ≤ t2) := by simp [ht2, h2]
@@ -760,26 +753,10 @@ theorem betweenAux_exhausted (t1 t2 : Nat) (vs : List TV) (h : ∀ tv ∈ vs, ¬
     simp only [betweenAux, h0.1, if_false, h0.2]
     exact ih (fun x hx => h x (by simp [hx]))
 
-theorem length_le_flatten_length {α : Type} (bs : List (List α)) (h : ∀ b ∈ bs, b ≠ []) :
-    bs.length ≤ bs.flatten.length := by
-  induction bs with
-  | nil => simp
-  | cons b rest ih =>
-    have hb : b ≠ [] := h b (by simp)
-    have : 1 ≤ b.length := by
-      cases b with
-      | nil => exact absurd rfl hb
-      | cons _ _ => simp
-    have := ih (fun x hx => h x (by simp [hx]))
-    simp only [List.length_cons, List.flatten_cons, List.length_append]
-    omega
-
-/-- `lastUpdateBetween` computes the specification whenever the chain cannot be overrun (every
-history-log block holds one version) or some own version decides the search. -/
-theorem lastUpdateBetween_eq_spec (block0 : List TV) (e : Entry) (t1 t2 : Nat) (h64 : e.hLogCount < 2 ^ 64)
-    (hne : ∀ b ∈ e.blocks, b ≠ [])
-    (hsafe : e.blocks.length = e.hLogCount ∨ ∃ tv ∈ e.versions, tv.ts < t1 ∨ t2 = 0 ∨ tv.ts ≤ t2) :
-    lastUpdateBetween block0 e t1 t2 = if t1 > t2 then .error .illegal else betweenAux t1 t2 e.versions := by
+/-- `lastUpdateBetween` computes the specification: the walk over ALL versions of the key, newest first
+(in-node versions, then the key's own history-log chain, and nothing else). -/
+theorem lastUpdateBetween_eq_spec (e : Entry) (t1 t2 : Nat) :
+    lastUpdateBetween e t1 t2 = if t1 > t2 then .error .illegal else betweenAux t1 t2 e.versions := by
   unfold lastUpdateBetween
   by_cases hill : t1 > t2
   · simp [hill]
@@ -793,33 +770,29 @@ theorem lastUpdateBetween_eq_spec (block0 : List TV) (e : Entry) (t1 t2 : Nat) (
     | some r => simp only; rw [hvers]; exact (hin.1 r hc).symm
     | none =>
       simp only
-      obtain ⟨ha, hb, hcn⟩ := hin.2 hc
+      obtain ⟨ha, hb, _⟩ := hin.2 hc
       have ht2 : t2 ≠ 0 := hb (by simp)
-      rw [hvers, ha]
-      have hlen : e.blocks.length ≤ e.hLogCount := length_le_flatten_length e.blocks hne
-      rw [betweenChain_noOverrun t1 t2 e.hLogCount block0 e.blocks e.hLogCount 0 hlen]
-      have hflat := betweenBlock_spec t1 t2 e.hLogCount ht2 h64 e.blocks.flatten 0 (by simp [Entry.hLogCount])
+      rw [hvers, ha, betweenChain_flatten]
+      have hflat := betweenBlock_spec t1 t2 e.hLogCount ht2 e.blocks.flatten 0 (by simp [Entry.hLogCount])
       cases hbk : betweenBlock t1 t2 e.hLogCount e.blocks.flatten 0 with
       | inl r => simp only; exact (hflat.1 r hbk).symm
-      | inr sk' =>
-        simp only
-        obtain ⟨hx, _, hall⟩ := hflat.2 sk' hbk
-        rw [hx]
-        rcases hsafe with h | ⟨tv, htv, hdec⟩
-        · rw [h, Nat.sub_self]; rfl
-        · exfalso
-          rw [hvers] at htv
-          rcases List.mem_append.mp htv with h1 | h1
-          · have := hcn tv h1
-            rcases hdec with h2 | h2 | h2
-            · exact this.1 h2
-            · exact ht2 h2
-            · exact this.2 h2
-          · have := hall tv h1
-            rcases hdec with h2 | h2 | h2
-            · exact this.1 h2
-            · exact ht2 h2
-            · exact this.2 h2
+      | inr sk' => simp only; exact (hflat.2 sk' hbk).1.symm
+
+/-- A successful search returns one of the versions it was given. -/
+theorem betweenAux_mem (t1 t2 : Nat) (vs : List TV) (v : Bytes) (ts hc : Nat)
+    (h : betweenAux t1 t2 vs = .ok (v, ts, hc)) : (⟨v, ts⟩ : TV) ∈ vs := by
+  induction vs with
+  | nil => simp [betweenAux] at h
+  | cons tv rest ih =>
+    simp only [betweenAux] at h
+    split at h
+    · simp at h
+    · split at h
+      · simp only [Except.ok.injEq, Prod.mk.injEq] at h
+        obtain ⟨hv, hts, _⟩ := h
+        subst hv hts
+        simp
+      · exact List.mem_cons_of_mem _ (ih h)
 
 /-- What the specification search returns (versions strictly decreasing in ts). -/
 theorem betweenAux_ok (t1 t2 : Nat) (vs : List TV) (hd : vs.Pairwise (fun a b => a.ts > b.ts))
